@@ -24,13 +24,13 @@ Definition rbrace (ln : nat) : tok := tk ln TokenRBRACE [] false.
 
 (* the statement loop of a block, after a statement [n] *)
 Definition PLines (b : sblock) : Prop :=
-  wfR b -> forall f kf n acc ln K,
+  wfB b -> forall f kf n acc ln K,
     n_line (snd n) < ln -> headk K ->
-    List.length (lay ln (pp_lines b ++ [kw TokenRBRACE])) + List.length K <= f ->
-    List.length (lay ln (pp_lines b ++ [kw TokenRBRACE])) + List.length K <= kf ->
+    List.length (lay ln (pp_more b ++ [kw TokenRBRACE])) + List.length K <= f ->
+    List.length (lay ln (pp_more b ++ [kw TokenRBRACE])) + List.length K <= kf ->
     exists trs,
-      stmts_new V (run V f) kf n acc (pos false (lay ln (pp_lines b ++ [kw TokenRBRACE]) ++ K))
-      = ROk (acc ++ trs) (pos false (rbrace (ln + nls (pp_lines b)) :: K))
+      stmts_new V (run V f) kf n acc (pos false (lay ln (pp_more b ++ [kw TokenRBRACE]) ++ K))
+      = ROk (acc ++ trs) (pos false (rbrace (ln + nls (pp_more b)) :: K))
       /\ map strip trs = embed_block b.
 
 (* parseInnerStatements, standing on the "{" *)
@@ -99,34 +99,80 @@ Lemma lay_stmt_pos s ln : wfS s -> 1 <= List.length (lay ln (pp_stmt s)).
 Proof. intros W. destruct (stmt_head s W) as (id & v & a & r & E & H). rewrite E. cbn [lay List.length]. lia. Qed.
 
 (* layout of the lines of a block *)
+Definition semit (ln : nat) : tok := tk ln TokenSEMICOLON [] false.
+
+Lemma nls_sep k : nls (sep_of k) = 0.
+Proof. unfold sep_of. destruct (continues k); reflexivity. Qed.
+
+Lemma lay_sep ln k : lay ln (sep_of k) = if continues k then [semit ln] else [].
+Proof. unfold sep_of. destruct (continues k); reflexivity. Qed.
+
 Lemma lay_lines_cons ln s r K :
   lay ln (pp_lines (BCons s r) ++ [kw TokenRBRACE]) ++ K =
-  lay ln (pp_stmt s) ++ lay (S (ln + nls (pp_stmt s))) (pp_lines r ++ [kw TokenRBRACE]) ++ K.
+  lay ln (pp_stmt s) ++ lay (S (ln + nls (pp_stmt s))) (pp_more r ++ [kw TokenRBRACE]) ++ K.
 Proof.
   cbn [pp_lines]. rewrite <- !app_assoc. rewrite lay_app. cbn [app lay]. rewrite <- app_assoc.
   reflexivity.
 Qed.
 
+Lemma lay_more_cons ln s r K :
+  lay ln (pp_more (BCons s r) ++ [kw TokenRBRACE]) ++ K =
+  lay ln (sep_of (pp_stmt s)) ++ lay ln (pp_stmt s) ++ lay (S (ln + nls (pp_stmt s))) (pp_more r ++ [kw TokenRBRACE]) ++ K.
+Proof.
+  cbn [pp_more]. rewrite <- !app_assoc. rewrite lay_app0 by apply nls_sep. rewrite lay_app. cbn [app lay].
+  rewrite <- !app_assoc. reflexivity.
+Qed.
+
 Lemma lay_lines_cons_len ln s r :
   List.length (lay ln (pp_lines (BCons s r) ++ [kw TokenRBRACE])) =
-  List.length (lay ln (pp_stmt s)) + List.length (lay (S (ln + nls (pp_stmt s))) (pp_lines r ++ [kw TokenRBRACE])).
+  List.length (lay ln (pp_stmt s)) + List.length (lay (S (ln + nls (pp_stmt s))) (pp_more r ++ [kw TokenRBRACE])).
 Proof.
   pose proof (lay_lines_cons ln s r []) as H. rewrite !app_nil_r in H. rewrite H, app_length. reflexivity.
 Qed.
 
-Lemma nls_lines_cons s r : nls (pp_lines (BCons s r)) = S (nls (pp_stmt s) + nls (pp_lines r)).
-Proof. cbn [pp_lines]. rewrite nls_app. cbn [nls]. lia. Qed.
-
-(* the head of the lines of a block (a statement or the closing brace) separates *)
-Lemma lines_head r ln2 K : wfR r ->
-  exists tc2 k2, lay ln2 (pp_lines r ++ [kw TokenRBRACE]) ++ K = tc2 :: k2 /\ forall ln, ln < ln2 -> sepT ln tc2 /\ ln < t_line tc2.
+Lemma lay_more_cons_len ln s r :
+  List.length (lay ln (pp_more (BCons s r) ++ [kw TokenRBRACE])) =
+  List.length (lay ln (sep_of (pp_stmt s))) + (List.length (lay ln (pp_stmt s)) +
+    List.length (lay (S (ln + nls (pp_stmt s))) (pp_more r ++ [kw TokenRBRACE]))).
 Proof.
-  intros W. destruct r as [|s r].
-  - cbn [pp_lines app lay kw]. do 2 eexists. split; [reflexivity|]. intros ln H. split; [apply rbrace_sep; exact H | exact H].
-  - cbn [wfR] in W. destruct W as (Ws & Hsafe & Wr).
-    destruct (stmt_head s Ws) as (id & v & a & rr & E & H). rewrite E in Hsafe. cbn [head_id] in Hsafe.
-    rewrite lay_lines_cons. rewrite E. cbn [lay app]. do 2 eexists. split; [reflexivity|]. intros ln Hl.
-    split; [apply hstart_sep; assumption | exact Hl].
+  pose proof (lay_more_cons ln s r []) as H. rewrite !app_nil_r in H. rewrite H, !app_length. reflexivity.
+Qed.
+
+Lemma nls_more_cons s r : nls (pp_more (BCons s r)) = S (nls (pp_stmt s) + nls (pp_more r)).
+Proof. cbn [pp_more]. rewrite !nls_app, nls_sep. cbn [nls]. lia. Qed.
+
+(* the head of the remaining lines of a block (";", a statement or the closing brace) separates *)
+Lemma more_head (E : list item) r ln2 K (e : tok) :
+  wfB r -> lay ln2 E = [e] -> (forall ln, ln < ln2 -> sepT ln e /\ ln < t_line e) ->
+  (t_id e =? TokenSEMICOLON) = false ->
+  exists tc2 k2, lay ln2 (pp_more r ++ E) ++ K = tc2 :: k2 /\
+    (forall ln, ln < ln2 -> sepT ln tc2 /\ ln < t_line tc2) /\
+    (r = BNil -> tc2 = e) /\
+    (r <> BNil -> (t_id tc2 =? TokenEOF) = false).
+Proof.
+  intros W HE Hsep Hns. destruct r as [|s r].
+  - cbn [pp_more app]. rewrite HE. cbn [app]. do 2 eexists. split; [reflexivity|]. split; [exact Hsep|]. split; [auto | congruence].
+  - cbn [wfB] in W. destruct W as (Ws & Wr).
+    destruct (stmt_head s Ws) as (id & v & a & rr & E1 & H).
+    cbn [pp_more]. rewrite <- !app_assoc. rewrite lay_app0 by apply nls_sep. rewrite lay_sep.
+    destruct (continues (pp_stmt s)) eqn:C.
+    + cbn [app]. do 2 eexists. split; [reflexivity|]. split; [|split; [discriminate | intros _; reflexivity]].
+      intros ln Hl. split; [apply semi_sep; exact Hl | exact Hl].
+    + cbn [app]. rewrite E1 in *. cbn [lay app]. do 2 eexists. split; [reflexivity|].
+      rewrite continues_head in C. split; [|split; [discriminate|]].
+      * intros ln Hl. split; [apply hstart_sep; assumption | exact Hl].
+      * intros _. cbn [tk t_id]. apply (hstart_not id TokenEOF H). unfold closers; simpl; tauto.
+Qed.
+
+Lemma lines_head r ln2 K : wfB r ->
+  exists tc2 k2, lay ln2 (pp_more r ++ [kw TokenRBRACE]) ++ K = tc2 :: k2 /\
+    (forall ln, ln < ln2 -> sepT ln tc2 /\ ln < t_line tc2) /\ (t_id tc2 =? TokenEOF) = false.
+Proof.
+  intros W. destruct (more_head [kw TokenRBRACE] r ln2 K (rbrace ln2) W eq_refl) as (tc2 & k2 & E & Hs & Hn & Hc).
+  - intros ln H. split; [apply rbrace_sep; exact H | exact H].
+  - reflexivity.
+  - exists tc2, k2. split; [exact E|]. split; [exact Hs|].
+    destruct r; [rewrite (Hn eq_refl); reflexivity | apply Hc; discriminate].
 Qed.
 
 Lemma strip_constructed id trs : strip (constructed id trs) = knode (cname id) (map strip trs).
@@ -138,8 +184,8 @@ Proof. reflexivity. Qed.
 Lemma lines_nil : PLines BNil.
 Proof.
   intros _ f kf n acc ln K Hn HK Hf Hkf. destruct n as [ni nd]. cbn [snd] in Hn. exists []. split; [|reflexivity].
-  cbn [pp_lines app lay kw List.length] in Hkf.
-  cbn [pp_lines app lay kw nls]. rewrite Nat.add_0_r, app_nil_r. fold (rbrace ln). cbn [app].
+  cbn [pp_more app lay kw List.length] in Hkf.
+  cbn [pp_more app lay kw nls]. rewrite Nat.add_0_r, app_nil_r. fold (rbrace ln). cbn [app].
   destruct kf as [|kf]; [lia|]. cbn [stmts_new]. unfold has_more. rewrite cur_pos_cons. cbn [cn fst rbrace tk t_id t_line].
   cbn [Nat.eqb TokenRBRACE TokenEOF TokenSEMICOLON].
   apply Nat.ltb_lt in Hn. rewrite Hn. unfold with_cur. rewrite cur_pos_cons. cbn [cn fst rbrace tk t_id].
@@ -148,21 +194,31 @@ Qed.
 
 Lemma lines_cons s r : PS s -> PLines r -> PLines (BCons s r).
 Proof.
-  intros IHs IHr W f kf n acc ln K Hn HK Hf Hkf. destruct n as [ni nd]. cbn [snd] in Hn. cbn [wfR] in W. destruct W as (Ws & Hsafe & Wr).
-  rewrite lay_lines_cons. rewrite lay_lines_cons_len in Hf, Hkf. set (ln2 := S (ln + nls (pp_stmt s))) in *.
-  destruct (lines_head r ln2 K Wr) as (tc2 & k2 & E2 & Hsep). rewrite E2.
-  assert (Hlen2 : List.length (lay ln2 (pp_lines r ++ [kw TokenRBRACE])) + List.length K = S (List.length k2)).
+  intros IHs IHr W f kf n acc ln K Hn HK Hf Hkf. destruct n as [ni nd]. cbn [snd] in Hn. cbn [wfB] in W. destruct W as (Ws & Wr).
+  rewrite lay_more_cons. rewrite lay_more_cons_len in Hf, Hkf. set (ln2 := S (ln + nls (pp_stmt s))) in *.
+  destruct (lines_head r ln2 K Wr) as (tc2 & k2 & E2 & Hsep & _). rewrite E2.
+  assert (Hlen2 : List.length (lay ln2 (pp_more r ++ [kw TokenRBRACE])) + List.length K = S (List.length k2)).
   { rewrite <- app_length, E2. reflexivity. }
   destruct (Hsep ln ltac:(unfold ln2; lia)) as [Hs2 Hl2].
   destruct (cur_stmt s ln (tc2 :: k2) false Ws) as (id & v & a & Hst & _ & Hcur).
   pose proof (lay_stmt_pos s ln Ws) as Hpos.
   destruct kf as [|kf]; [lia|]. destruct f as [|f]; [lia|].
-  cbn [stmts_new]. unfold has_more. rewrite Hcur. cbn [cn fst tk t_id t_line].
-  rewrite (hstart_not id TokenEOF Hst) by (unfold closers; simpl; tauto).
-  rewrite (hstart_not id TokenSEMICOLON Hst) by (unfold closers; simpl; tauto).
-  apply Nat.ltb_lt in Hn. rewrite Hn. unfold with_cur. rewrite Hcur. cbn [cn fst tk t_id].
-  rewrite (hstart_not id TokenSEMICOLON Hst) by (unfold closers; simpl; tauto).
-  rewrite (hstart_not id TokenRBRACE Hst) by (unfold closers; simpl; tauto).
+  apply Nat.ltb_lt in Hn.
+  assert (Hstep : stmts_new V (run V (S f)) (S kf) (ni, nd) acc
+                    (pos false (lay ln (sep_of (pp_stmt s)) ++ lay ln (pp_stmt s) ++ tc2 :: k2)) =
+                  (do n', s2 <- run V (S f) 0 (pos false (lay ln (pp_stmt s) ++ tc2 :: k2));
+                   stmts_new V (run V (S f)) kf n' (acc ++ [snd n']) s2)).
+  { rewrite lay_sep. destruct (continues (pp_stmt s)).
+    - cbn [app]. cbn [stmts_new]. unfold has_more. rewrite cur_pos_cons. cbn [cn fst semit tk t_id Nat.eqb TokenSEMICOLON TokenEOF].
+      unfold with_cur. rewrite cur_pos_cons. cbn [cn fst semit tk t_id Nat.eqb TokenSEMICOLON]. rewrite pos_cons.
+      rewrite skipToken_pos by (try reflexivity; apply headk_stmt; exact Ws). reflexivity.
+    - cbn [app]. cbn [stmts_new]. unfold has_more. rewrite Hcur. cbn [cn fst tk t_id t_line].
+      rewrite (hstart_not id TokenEOF Hst) by (unfold closers; simpl; tauto).
+      rewrite (hstart_not id TokenSEMICOLON Hst) by (unfold closers; simpl; tauto).
+      rewrite Hn. unfold with_cur. rewrite Hcur. cbn [cn fst tk t_id].
+      rewrite (hstart_not id TokenSEMICOLON Hst) by (unfold closers; simpl; tauto).
+      rewrite (hstart_not id TokenRBRACE Hst) by (unfold closers; simpl; tauto). reflexivity. }
+  rewrite Hstep.
   destruct (IHs Ws f ln tc2 k2 Hs2 (fun _ => Hl2) ltac:(lia)) as (i & tr & Erun & Hstrip & Hline).
   rewrite Erun. cbn [rbind snd].
   change (st (Some (cn false tc2)) k2 false) with (pos false (tc2 :: k2)). rewrite <- E2.
@@ -172,7 +228,7 @@ Proof.
   - lia.
   - lia.
   - rewrite Eloop. exists (tr :: trs). split.
-    + rewrite <- app_assoc. cbn [app]. rewrite nls_lines_cons. unfold ln2. f_equal. f_equal. f_equal. unfold rbrace. f_equal. lia.
+    + rewrite <- app_assoc. cbn [app]. rewrite nls_more_cons. unfold ln2. f_equal. f_equal. f_equal. unfold rbrace. f_equal. lia.
     + cbn [map embed_block]. rewrite Hstrip, Hmap. reflexivity.
 Qed.
 
@@ -189,8 +245,8 @@ Lemma pis_cons s r : PS s -> PLines r -> PPis (BCons s r).
 Proof.
   intros IHs IHr W f ln c K Hc HK Hf. cbn [wfB] in W. destruct W as (Ws & Wr).
   rewrite lay_lines_cons. rewrite lay_lines_cons_len in Hf. set (ln2 := S (ln + nls (pp_stmt s))) in *.
-  destruct (lines_head r ln2 K Wr) as (tc2 & k2 & E2 & Hsep). rewrite E2.
-  assert (Hlen2 : List.length (lay ln2 (pp_lines r ++ [kw TokenRBRACE])) + List.length K = S (List.length k2)).
+  destruct (lines_head r ln2 K Wr) as (tc2 & k2 & E2 & Hsep & Hneof). rewrite E2.
+  assert (Hlen2 : List.length (lay ln2 (pp_more r ++ [kw TokenRBRACE])) + List.length K = S (List.length k2)).
   { rewrite <- app_length, E2. reflexivity. }
   destruct (Hsep ln ltac:(unfold ln2; lia)) as [Hs2 Hl2].
   destruct (cur_stmt s ln (tc2 :: k2) false Ws) as (id & v & a & Hst & _ & Hcur).
@@ -202,13 +258,6 @@ Proof.
   change (v_propagate V) with true. cbv iota.
   destruct (IHs Ws f ln tc2 k2 Hs2 (fun _ => Hl2) ltac:(lia)) as (i & tr & Erun & Hstrip & Hline).
   rewrite Erun. cbn [rbind snd]. rewrite cur_st.
-  destruct Hs2 as (K2 & _). 
-  assert (Hneof : (t_id tc2 =? TokenEOF) = false).
-  { destruct r as [|s' r'].
-    - cbn [pp_lines app lay kw] in E2. inversion E2. reflexivity.
-    - cbn [wfR] in Wr. destruct Wr as (Ws' & _ & _). destruct (stmt_head s' Ws') as (id' & v' & a' & rr & E' & H').
-      rewrite lay_lines_cons, E' in E2. cbn [lay app] in E2. inversion E2. cbn [tk t_id].
-      apply (hstart_not id' TokenEOF H'). unfold closers; simpl; tauto. }
   cbn [cn fst]. rewrite Hneof. rewrite fuel_of_st.
   change (st (Some (cn false tc2)) k2 false) with (pos false (tc2 :: k2)). rewrite <- E2.
   destruct (IHr Wr (S f) (S (List.length k2)) (i, tr) [tr] ln2 K) as (trs & Eloop & Hmap).
